@@ -29,6 +29,7 @@ type c15Case struct {
 	Order    []int           `json:"order"`
 	AdvPerm  [][]int         `json:"adv_perm"`
 	Both     int             `json:"both"` // >0: session (Both-1) gets password AND secret reference
+	Prior    [][]vw.BGPAdv   `json:"prior"`
 }
 
 func c15Perm(rt *rapid.T, n int, label string) []int {
@@ -48,13 +49,16 @@ func genC15(rt *rapid.T) c15Case {
 	for _, s := range c.Sessions {
 		c.AdvPerm = append(c.AdvPerm, c15Perm(rt, len(s.Advs), "advperm"))
 	}
+	for _, s := range c.Sessions {
+		c.Prior = append(c.Prior, vw.GenPriorAdvs(rt, s.Advs))
+	}
 	if len(c.Sessions) > 0 && rapid.IntRange(0, 19).Draw(rt, "bothK") == 0 {
 		c.Both = 1 + rapid.IntRange(0, len(c.Sessions)-1).Draw(rt, "both")
 	}
 	return c
 }
 
-func c15Render(sessions []vw.BGPSession, order []int, advPerm [][]int) (*frrv1beta1.FRRConfiguration, error) {
+func c15Render(sessions []vw.BGPSession, order []int, advPerm [][]int, prior ...[][]vw.BGPAdv) (*frrv1beta1.FRRConfiguration, error) {
 	var last *frrv1beta1.FRRConfiguration
 	sm := &sessionManager{sessions: map[string]*session{}, nodeToConfigure: "node0", targetNamespace: "frr-k8s-system", logger: log.NewNopLogger(), logLevel: logging.LevelInfo}
 	sm.SetEventCallback(func(c interface{}) {
@@ -75,6 +79,17 @@ func c15Render(sessions []vw.BGPSession, order []int, advPerm [][]int) (*frrv1be
 			return nil, err
 		}
 		handles[i] = h
+	}
+	if len(prior) > 0 {
+		for _, i := range idx {
+			if i < len(prior[0]) && prior[0][i] != nil {
+				old := sessions[i]
+				old.Advs = prior[0][i]
+				if err := handles[i].Set(frrmode.VerifAdvs(old, nil)...); err != nil {
+					return nil, err
+				}
+			}
+		}
 	}
 	for _, i := range idx {
 		var p []int
@@ -125,9 +140,9 @@ func runC15(c c15Case, tr *vw.Trace) *vw.Violation {
 	if err != nil || cfg == nil {
 		return vw.Violationf("render-error", "building the FRRConfiguration for %d valid sessions failed: %v", len(c.Sessions), err)
 	}
-	cfg2, err := c15Render(c.Sessions, c.Order, c.AdvPerm)
+	cfg2, err := c15Render(c.Sessions, c.Order, c.AdvPerm, c.Prior)
 	if err != nil || !reflect.DeepEqual(cfg, cfg2) {
-		return vw.Violationf("config-depends-on-order", "the FRRConfiguration depends on creation / advertisement order (order %v): %v", c.Order, err)
+		return vw.Violationf("config-depends-on-order", "the FRRConfiguration depends on creation / advertisement order / earlier Set calls (order %v, prior %v): %v", c.Order, c.Prior, err)
 	}
 	if cfg.Name != "metallb-node0" || len(cfg.Spec.NodeSelector.MatchExpressions) != 0 || !reflect.DeepEqual(cfg.Spec.NodeSelector.MatchLabels, map[string]string{"kubernetes.io/hostname": "node0"}) {
 		return vw.Violationf("node-selector", "FRRConfiguration %q targets %v, expected this node only", cfg.Name, cfg.Spec.NodeSelector)
